@@ -205,11 +205,14 @@ def run(rep, repo, tier):
     mod = compile_ir(os.path.join(WIT, 'w_vector.cpp'), repo, exceptions=True)
     rep.units.append('witness/w_vector.cpp -> igris/container/vector.h, igris/util/ctrdtr.h')
     ext = dict(CXX_EXT)
-    run_class(rep, 'R-VEC', mod, 'igris::vector<int', vec_spec(4), table(4), FnSpec(), externals=ext, min_methods=40)
+    today = ('at', 'back', 'begin', 'capacity', 'changeBuffer', 'clear', 'data', 'emplace', 'emplace_back', 'empty', 'end', 'erase',
+             'front', 'insert', 'insert_sorted', 'invalidate', 'operator!=', 'operator<', 'operator=', 'operator==', 'operator[]',
+             'pop_back', 'push_back', 'rbegin', 'rend', 'reserve', 'resize', 'size', 'vector', '~vector')
+    run_class(rep, 'R-VEC', mod, 'igris::vector<int', vec_spec(4), table(4), FnSpec(), externals=ext, min_methods=40, today=today)
     ext2 = dict(CXX_EXT)
     ext2.update(VTR_EXT)
     run_class(rep, 'R-VEC', mod, 'igris::vector<VTr', vec_spec(SZ_VTR), table(SZ_VTR), FnSpec(), externals=ext2,
-              min_methods=35)
+              min_methods=35, today=today)
     from irlib import keep_known_members
     flat_known = ('at', 'operator=', 'operator[]', 'begin', 'cbegin', 'cend', 'clear', 'count', 'empty', 'end', 'find', 'flat_map',
                   'flat_set', 'insert', 'max_size', 'rbegin', 'rend', 'reserve', 'size', 'swap', 'emplace', 'erase', 'contains',
